@@ -83,10 +83,10 @@ def generate(seed, mode="c15", opts=None):
         for k in range(ch.rint(1, 4, "ninst")):
             r = draw_request(ch, target, tb, h)
             insts.append(r)
-            if r[0] in ("res", "cap", "diode", "bjt") and not r[1].get("bogus") and ch.chance(1, 2):
+            if r[0] in ("mos", "res", "cap", "diode", "bjt") and not r[1].get("bogus") and ch.chance(1, 2):
                 # the same device again, with one size changed (caches must tell them apart)
                 r2 = [r[0], dict(r[1]), r[2]]
-                f = ch.pick(["w", "l", "mult"], "resize")
+                f = ch.pick(["w", "l", "mult", "nf"] if r[0] == "mos" else ["w", "l", "mult"], "resize")
                 r2[1][f] = {None: (2 if f != "l" else 3)}.get(r[1].get(f), None if ch.chance(1, 2) else 5)
                 insts.append(r2)
         subs = []
